@@ -1,7 +1,7 @@
 (* C12 specification: a single finite map key -> (value, Expire), NO deadline index.
    Part 1: reference semantics (one map, same operations; a sweep is a filter).
    Part 2: the declarative reading of the property: [last_stored k h] = the entry most recently stored for k
-   (Set / successful SetIfAbsent / successful Replace / Restore) and not deleted, cleared or replaced by a
+   (Set / successful SetIfAbsent / successful Replace / Restore / Load of an entry not yet expired) and not deleted, cleared or replaced by a
    Restore since, computed from the operations and their outputs alone, ignoring time. *)
 From VF Require Import Common.Base C12.Model.
 Local Open Scope Z_scope.
@@ -43,6 +43,7 @@ Definition sstep (m : smap) (now : Z) (o : op) : smap * out :=
   | OSweep => (filter (fun p => negb (swept now (snd (snd p)))) m, OutUnit)
   | OExport => (m, OutExport m)
   | ORestore data => (s_load [] data now, OutUnit)
+  | OLoad data => (s_load m data now, OutUnit)
   end.
 
 Fixpoint srun (m : smap) (tops : list (Z * op)) : smap * list out :=
@@ -66,6 +67,10 @@ Definition ls_step (k : Z) (cur : option entry) (e : event) : option entry :=
   | ODelete k', _ => if k' =? k then None else cur
   | OClear, _ => None
   | ORestore data, _ => m_get (data_map data) k
+  | OLoad data, _ => match m_get (data_map data) k with    (* a decoded entry already expired is not loaded *)
+                     | Some (v, d) => if expired now d then cur else Some (v, d)
+                     | None => cur
+                     end
   | _, _ => cur
   end.
 
@@ -79,7 +84,7 @@ End Spec.
 (* ---------- hypotheses on operation lists ---------- *)
 Definition op_wf (o : op) : Prop :=
   match o with
-  | ORestore data => NoDup (map fst data) /\ Forall (fun ke => 0 <= snd (snd ke)) data
+  | ORestore data | OLoad data => NoDup (map fst data) /\ Forall (fun ke => 0 <= snd (snd ke)) data
   | _ => True
   end.
 Definition ops_wf (tops : list (Z * op)) : Prop := Forall (fun x => op_wf (snd x)) tops.
